@@ -1,4 +1,5 @@
 from .common import *
+from . import c10
 
 def run(tier):
     r = Run('C18', tier)
@@ -9,6 +10,9 @@ def run(tier):
     for sl in ((5, 20, 256, 300) if tier == 'quick' else (0, 1, 5, 20, 55, 56, 64, 100, 255, 256, 257, 300, 520)):
         e2e_ob(r, 'iv-chain-seed%d' % sl, 3, 20, 2, 0, 1, extra=['SEEDLEN=%d' % sl], timeout=900)
     e2e_ob(r, 'iv-chain-seed-with-high-bytes', 3, 20, 2, 0, 1, extra=['SEEDLEN=13', 'SEEDFIX'], timeout=900)
+    # "no keystream block is used twice" inside one stream: the CTR register after every step is counter+1 on all 128 bits (injective for 2^128 steps),
+    # OFB/CFB/CBC feed back exactly the cipher output - the step obligations of C10 on the real mode objects
+    c10.mode_obligations(r, tier, prefix='mode-')
     r.bounds = ['T in {2,3}, one chunk per stream, CTR/OFB and the other non-ECB modes; seeds of the listed lengths, contents symbolic']
     r.outside = ['A-SHA: SHA-1 has no collisions / short cycles, so the chained IV slots differ and depend on the seed - not a solver claim']
     r.assumptions = ['A-SHA', 'as C01']
@@ -16,4 +20,4 @@ def run(tier):
     return r.finish()
 
 def replay(rp):
-    return generic_replay(rp, {'kern_e2e_b1': lambda: U_kern('kern', buf=1)})
+    return generic_replay(rp, {'kern_e2e_b1': lambda: U_kern('kern', buf=1), 'aes': U_aes, 'aes_blkuf': U_aes})
